@@ -48,6 +48,7 @@ var KnownDeviations = []KnownDeviation{
 	{Scope: "multi-step-optional-match-inner-joins-leading-steps", Dev: cyref.Deviations{OptionalMatchInnerJoinsLeadingSteps: true}},
 	{Scope: "multi-step-optional-match-is-plain-match", Dev: cyref.Deviations{MultiStepOptionalMatchIsPlainMatch: true}},
 	{Scope: "expansion-from-unbound-node-is-cross-joined-with-earlier-rows", Dev: cyref.Deviations{ExpansionSeedCrossJoinsEarlierFrame: true}},
+	{Scope: "predicate-over-both-ends-of-an-expansion-dropped-when-the-pattern-continues", Dev: cyref.Deviations{PredicateOverBothExpansionEndsDropped: true}},
 	{Scope: "regular-expression-match-is-unanchored", Dev: cyref.Deviations{RegexMatchIsUnanchored: true}},
 	{Scope: "quantifier-counts-null-predicate-as-false", Dev: cyref.Deviations{QuantifierPredicateNullCountsAsFalse: true}},
 	{Scope: "arithmetic-and-sum-coerce-property-through-text", Dev: cyref.Deviations{ArithmeticAndSumCoerceProperty: true}},
@@ -74,6 +75,7 @@ func merge(a, b cyref.Deviations) cyref.Deviations {
 		ListConcatenationReadsNullAsEmpty:          a.ListConcatenationReadsNullAsEmpty || b.ListConcatenationReadsNullAsEmpty,
 		LeadingOptionalMatchYieldsNoRow:            a.LeadingOptionalMatchYieldsNoRow || b.LeadingOptionalMatchYieldsNoRow,
 		RegexMatchIsUnanchored:                     a.RegexMatchIsUnanchored || b.RegexMatchIsUnanchored,
+		PredicateOverBothExpansionEndsDropped:      a.PredicateOverBothExpansionEndsDropped || b.PredicateOverBothExpansionEndsDropped,
 		ExpansionSeedCrossJoinsEarlierFrame:        a.ExpansionSeedCrossJoinsEarlierFrame || b.ExpansionSeedCrossJoinsEarlierFrame,
 		MultiStepOptionalMatchIsPlainMatch:         a.MultiStepOptionalMatchIsPlainMatch || b.MultiStepOptionalMatchIsPlainMatch,
 		OptionalMatchInnerJoinsLeadingSteps:        a.OptionalMatchInnerJoinsLeadingSteps || b.OptionalMatchInnerJoinsLeadingSteps,
